@@ -2,7 +2,7 @@
 # usage: tools/matrix.sh <seed> <ids...> — each seeded change against its own check; one summary line each
 SEED="$1"; shift
 for p in "$@"; do
-  c=$(echo $p | sed "s/[bc]$//")
+  c=$(echo $p | sed "s/[bcd]$//")
   R=$(LINES_MAX=40 VERIF_JOBS=${VERIF_JOBS:-8} tools/mutant.sh seeded/$p/patch.diff $SEED $c 2>&1)
   V=$(echo "$R" | grep -c "^VIOLATION")
   L=$(echo "$R" | grep "verdict=" | sed 's/.*\(new_violations=[0-9]*\).*\(wall=[0-9.]*s\).*\(verdict=[a-zA-Z]*\)/\1 \2 \3/')
